@@ -99,11 +99,11 @@ def main():
         if demo_dst:
             shutil.copy(demo_src, demo_dst)
             pkgdir = os.path.dirname(demo_dst)
-            rc, out = run("go test -vet=off -count=1 -run . . 2>&1 | tail -25", cwd=pkgdir, timeout=600)
+            rc, out = run("go test -vet=off -count=1 -run '(?i)seed|demo' . 2>&1 | tail -25", cwd=pkgdir, timeout=600)
             meta["demo_fails_with_patch"] = ("FAIL" in out) or ("panic:" in out)
             meta["demo_output_with_patch"] = out[-700:]
             run(f"git apply -R {patch}", cwd=wt)
-            rc, out = run("go test -vet=off -count=1 -run . . 2>&1 | tail -8", cwd=pkgdir, timeout=600)
+            rc, out = run("go test -vet=off -count=1 -run '(?i)seed|demo' . 2>&1 | tail -8", cwd=pkgdir, timeout=600)
             meta["demo_passes_without_patch"] = ("FAIL" not in out) and ("ok" in out)
             run(f"git apply {patch}", cwd=wt)
             os.remove(demo_dst)
@@ -133,8 +133,10 @@ def finish(meta, patch, demo, notes, wt):
     if patch and meta.get("status", "").startswith(("confirmed", "demo-unconfirmed")):
         d = f"/verif/seeded/{meta['name']}"
         os.makedirs(d, exist_ok=True)
-        shutil.copy(patch, os.path.join(d, "patch.diff"))
-        if demo: shutil.copy(demo, os.path.join(d, "verif_seed_demo_test.go"))
+        def cp(a, b):
+            if os.path.abspath(a) != os.path.abspath(b): shutil.copy(a, b)
+        cp(patch, os.path.join(d, "patch.diff"))
+        if demo: cp(demo, os.path.join(d, "verif_seed_demo_test.go"))
         if notes: open(os.path.join(d, "NOTES.md"), "w").write(notes)
         m = dict(meta)
         m["breaks_property"] = meta["property"]
